@@ -153,8 +153,8 @@ where
 {
     buffer.clear();
 
-    let n = stream.read_buf(buffer).await?;
-    buffer.truncate(n);
+    // the daemon writes the whole state and closes the connection
+    stream.read_to_end(buffer).await?;
     serde_json::from_slice(buffer)
         .map_err(|e| std::io::Error::new(std::io::ErrorKind::InvalidInput, e))
 }
